@@ -355,7 +355,7 @@ func c12Setter(r *Report, E *envRoles) {
 		}
 		o.check(why == "", fmt.Sprintf("fresh map; puts %v", keysOf(puts)), why)
 	}
-	r.floor("R12.1", np, 4, "paths of the setter")
+	r.floorSoft("R12.1", np, 4, "paths of the setter")
 }
 
 func keysOf(m map[int64]*Term) []int64 {
@@ -381,19 +381,57 @@ func c12RuleTable(r *Report, E *envRoles) {
 	type loopRole struct {
 		L      *loopInfo
 		bucket string
+		host   *ssa.Function
 	}
 	var loops []loopRole
-	for _, l := range findLoops(fn) {
-		if l.kind != "map-range" || l.over == nil {
+	rules := fn
+	type cand struct {
+		f *ssa.Function
+		m map[string]*Term
+	}
+	cands := []cand{{fn, nil}}
+	for _, ci := range callsIn(fn, nil) {
+		if g := staticCallee(ci); g != nil && P.inPkg(g) && g != norm {
+			m := map[string]*Term{}
+			for i, a := range ci.Common().Args {
+				m[itoa(int64(i))] = P.terms.of(a)
+			}
+			cands = append(cands, cand{g, m})
+		}
+	}
+	for _, c := range cands {
+		for _, l := range findLoops(c.f) {
+			if l.kind != "map-range" || l.over == nil {
+				continue
+			}
+			ot := P.terms.of(l.over)
+			if c.m != nil {
+				ot = ot.subst(c.m)
+			}
+			switch ot.String() {
+			case "*$0.Protected":
+				loops = append(loops, loopRole{l, "protected", c.f})
+			case "*$0.Unprotected":
+				loops = append(loops, loopRole{l, "unprotected", c.f})
+			}
+		}
+	}
+	// when a bucket's loop lives in a helper, the rule function must succeed only under that helper's success
+	for _, lr := range loops {
+		if lr.host == rules {
 			continue
 		}
-		ot := P.terms.of(l.over).String()
-		switch ot {
-		case "*$0.Protected":
-			loops = append(loops, loopRole{l, "protected"})
-		case "*$0.Unprotected":
-			loops = append(loops, loopRole{l, "unprotected"})
+		okAll := true
+		for _, x := range P.factsOf(rules).exits {
+			if x.kind == exitFailure {
+				continue
+			}
+			fs := exitFacts(P, x)
+			if len(fs.findOK(func(call *Term) bool { return call.S == shortFn(lr.host) })) == 0 {
+				okAll = false
+			}
 		}
+		r.ob("R12.4", shortFn(rules)+":requires:"+shortFn(lr.host), rules, nil, "the rule function succeeds only if its per-bucket helper succeeded").check(okAll, "ok("+shortFn(lr.host)+") on every success exit", "a success exit of "+shortFn(rules)+" lacks ok("+shortFn(lr.host)+")")
 	}
 	r.ob("R12.4", shortFn(fn)+":loops", fn, nil, "the rule function ranges over both buckets of its Headers").check(len(loops) == 2, "two range loops", fmt.Sprintf("%d range loops over the Headers' buckets", len(loops)))
 	labelOf := func(p *Path) (int64, bool, bool) {
@@ -422,6 +460,7 @@ func c12RuleTable(r *Report, E *envRoles) {
 	l3, l258, l259, l260 := P.mustConst("HeaderLabelContentType"), P.mustConst("HeaderLabelPayloadHashAlgorithm"), P.mustConst("HeaderLabelPayloadPreimageContentType"), P.mustConst("HeaderLabelPayloadLocation")
 	for _, lr := range loops {
 		L := lr.L
+		fn := lr.host
 		// the loop-carried "found" flag (protected loop only)
 		var found *ssa.Phi
 		for _, in := range L.header.Instrs {
